@@ -14,6 +14,7 @@ class G:
         self.in_try = False       # inside a try body: defeat calls allowed, try not
         self.funcs = []           # (name, nparams, returns_int) callable from the code being generated
         self.in_handler = False   # inside an undo handler: plain statements only
+        self.loops = []           # kinds ('for' / 'while') of the enclosing loops of the code being generated
 
     def vars(self):
         return [v for sc in self.scopes for v in sc]
@@ -84,6 +85,10 @@ class G:
     def stmt(self, d, ind):
         r = self.r.random()
         vs = [v for v in self.vars() if v not in self.loopvars]
+        if self.loops and self.r.random() < 0.09:
+            # `continue` only where the loop still makes progress (the step of a `for` runs on continue)
+            kw = 'continue' if (self.loops[-1] == 'for' and self.r.random() < 0.5) else 'break'
+            return ['%sif (%s) {' % (ind, self.cmp(1)), '%s    %s;' % (ind, kw), '%s}' % ind]
         if r < 0.2 or not self.vars():
             x = self.fresh()
             s = '%sint %s = %s;' % (ind, x, self.e(self.r.randint(0, 3)))
@@ -141,7 +146,9 @@ class G:
             i = self.fresh()
             n = self.r.randint(0, 4)
             self.scopes.append([i]); self.loopvars.add(i)
+            self.loops.append('for')
             body = self.block(d - 1, ind=ind + '    ')
+            self.loops.pop()
             self.scopes.pop()
             step = self.r.choice(['%s += 1' % i, '%s = %s + 1' % (i, i)])
             cond = self.r.choice(['%s < %d' % (i, n), '%d > %s' % (n, i), '%s != %d' % (i, n), '%s < %d and true' % (i, n)])
@@ -150,7 +157,9 @@ class G:
             i = self.fresh()
             n = self.r.randint(0, 3)
             self.scopes[-1].append(i); self.loopvars.add(i)
+            self.loops.append('while')
             body = self.block(d - 1, ind=ind + '    ')
+            self.loops.pop()
             return ['%sint %s = %d;' % (ind, i, n), '%swhile (%s > 0) {' % (ind, i)] + body + ['%s    %s = %s - 1;' % (ind, i, i), '%s}' % ind]
         if r < 0.95:
             return ['%s{' % ind] + self.block(d - 1, ind=ind + '    ') + ['%s}' % ind]
@@ -164,6 +173,7 @@ class G:
         name = 'fn%d' % idx
         params = ['%s_a%d' % (name, i) for i in range(npar)]
         saved = (self.scopes, self.loopvars, self.in_try, self.in_handler)
+        saved_loops, self.loops = self.loops, []
         self.ret_int = retint
         self.scopes, self.loopvars, self.in_try, self.in_handler = [list(params)], set(), False, True   # plain statements only
         body = self.block(2, n=self.r.randint(1, 5))
@@ -174,6 +184,7 @@ class G:
             cond = ('%s %s %d' % (params[0], self.r.choice(['<', '>', '==', '!=']), self.r.choice([0, 1, 2, 7]))) if params else self.cmp(0)
             body.insert(self.r.randint(0, len(body)), '    if (%s) {\n        return;\n    }' % cond)
         self.scopes, self.loopvars, self.in_try, self.in_handler = saved
+        self.loops = saved_loops
         self.ret_int = False
         text = '%s %s(%s) {\n' % ('int' if retint else 'empty', name, ', '.join('int ' + q for q in params)) + '\n'.join(body) + '\n}\n'
         return (name, npar, retint), text
